@@ -110,6 +110,12 @@ func checkC18(sc *Scenario, st *Stats) *Violation {
 	if len(sc.Extra) > 0 {
 		_ = json.Unmarshal(sc.Extra, &ex)
 	}
+	// A struct logger that keeps a memory image per step holds steps x memory bytes
+	// (hex encoded twice over for the comparison): gigabytes for a loop over a few
+	// hundred KB of memory. Both loggers get the same cap on captured steps then.
+	if ex.SL.EnableMemory && (ex.SL.Limit == 0 || ex.SL.Limit > 64) {
+		ex.SL.Limit = 64
+	}
 	// the scenario's own faults are only used by clause (c)
 	base := sc.Clone()
 	base.Faults = nil
